@@ -395,6 +395,20 @@ theorem freeAll_ok (l : List Slice) : ∀ (h : Heap),
 theorem Env.refl (h : Heap) : Env h h :=
   ⟨rfl, rfl, Nat.le_refl _, fun _ x hx => ⟨x, hx, rfl, rfl, rfl, fun _ => rfl⟩⟩
 
+/-- the co-tenant overwriting a recycled object is an environment step -/
+theorem Env.overwrite (h : Heap) (o : Nat) (x : Obj) (d : Bytes) (hx : h.obj? o = some x)
+    (hf : x.owner = .freed) (hd : d.length = x.data.length) : Env h (h.setData o 0 d) := by
+  have hbnd : ∀ y, h.obj? o = some y → 0 + d.length ≤ y.data.length := by
+    intro y hy; rw [hx] at hy; cases hy; omega
+  have hss := sameShape_setData h o 0 d hbnd
+  refine ⟨rfl, rfl, by rw [hss.size]; exact Nat.le_refl _, fun o' y hy => ?_⟩
+  obtain ⟨y', hy', a, b, c⟩ := hss.obj? o' y hy
+  refine ⟨y', hy', a, b, c, fun hnf => ?_⟩
+  have hne : o' ≠ o := by
+    intro heq; subst heq; rw [hx] at hy; cases hy; exact hnf hf
+  rw [setData_obj?_ne h o 0 d o' hne, hy] at hy'
+  cases hy'; rfl
+
 theorem Env.byte? {h h' : Heap} (he : Env h h') (o p : Nat) (x : Obj) (hx : h.obj? o = some x)
     (hf : x.owner ≠ .freed) : h'.byte? o p = h.byte? o p := by
   obtain ⟨x', hx', _, _, _, hd⟩ := he.keep o x hx
